@@ -16,7 +16,7 @@ impl Poll {
         requires k == 0 || self.w_interrupted((k - 1) as nat),
         ensures self.w_polled(timeout),
                 (r matches Err(crate::Error::IoError(e)) && crate::ext::io_kind(e) == std::io::ErrorKind::Interrupted) ==> self.w_interrupted(k),
-    { self.poll(timeout) }
+    { unimplemented!() }   // (external_body: never compiled into anything; does not depend on the signature of the real `poll`)
     /// the OS poller behind this Poll (ghost accessor for the pub(crate) field)
     pub closed spec fn pl(&self) -> Poller { *self.poller }
     /// (for code of other modules that reads the pub(crate) field directly)
